@@ -1434,6 +1434,11 @@ class Evaluator:
         a, b = to_num(a), to_num(b)
         if concrete(a) and concrete(b):
             import operator as o
+            plain = (int, float, Fraction, bool, str, bytes, type(None), frozenset)
+            if not (isinstance(a, plain) and isinstance(b, plain)):
+                # a value the executor only carries around (a method, an object, a contract-side model) compared as if it were a constant:
+                # Python's default equality would silently decide the branch
+                raise Outside(f"comparison of {type(a).__name__} with {type(b).__name__}")
             return {ast.Eq: o.eq, ast.NotEq: o.ne, ast.Lt: o.lt, ast.LtE: o.le, ast.Gt: o.gt, ast.GtE: o.ge}[type(op)](a, b)
         za, zb = Z(a), Z(b)
         if z3.is_bool(za) and z3.is_bool(zb):
